@@ -144,7 +144,7 @@ struct Tier {
 }
 fn tier(name: &str) -> Option<Tier> {
     match name {
-        "quick" => Some(Tier { name: "quick", scenarios: 256, random_per_scenario: 28000, pct_per_scenario: 12000, td_scenarios: 64, td_random_per_scenario: 10000, td_pct_per_scenario: 5000, miri_seeds: 0 }),
+        "quick" => Some(Tier { name: "quick", scenarios: 256, random_per_scenario: 28000, pct_per_scenario: 12000, td_scenarios: 64, td_random_per_scenario: 10000, td_pct_per_scenario: 5000, miri_seeds: 8 }),
         "thorough" => Some(Tier { name: "thorough", scenarios: 3072, random_per_scenario: 40000, pct_per_scenario: 20000, td_scenarios: 768, td_random_per_scenario: 20000, td_pct_per_scenario: 10000, miri_seeds: 64 }),
         _ => None,
     }
@@ -890,7 +890,7 @@ fn check(t: Tier) -> i32 {
             "worker_processes": nworkers,
             "worker_crashes": crashes.iter().map(|c| json!({"scenario": c.0, "how": c.1})).collect::<Vec<_>>(),
             "executions_per_second": if wall > 0.0 { (evaluations as f64 / wall) as u64 } else { 0 },
-            "engines": { "shuttle": "0.9.3 (RandomScheduler, PctScheduler; replay by ReplayScheduler)", "miri": match &miri_outcome { Some(m) => m.to_json(), None => json!("not part of this tier (thorough runs it; C20_MIRI_SEEDS=n forces n seeds per mode)") } },
+            "engines": { "shuttle": "0.9.3 (RandomScheduler, PctScheduler; replay by ReplayScheduler)", "miri": match &miri_outcome { Some(m) => m.to_json(), None => json!("not run (C20_MIRI_SEEDS=0)") } },
             "miri_runs": miri_runs,
         },
         "assumptions": [
